@@ -195,6 +195,21 @@ def krylov_dim(A, v):
     return r // 2
 
 
+def add_magnitudes(rng, cases, share=0.2):
+    """magnitude regimes: the operator multiplied by a power of two (exact), the time step of expm_krylov divided by it, so
+    that the mathematical answer is the same up to the factor; the breakdown test of the iterations is absolute
+    (100 n eps), so factors stay above 2^-30 ~ 1e-9 (non-zero residual norms of the families here stay above 1e-11)"""
+    for c in cases:
+        if c.get('afunc') or c.get('start') == 'zero-vector' or c.get('spectrum') == 'zero' or rng.random() >= share:
+            continue
+        k = rng.choice([-30, -27, -24, -20, 20, 30])
+        f = 2.0 ** k
+        c['A'] = [[[re * f, im * f] for re, im in row] for row in c['A']] if c['A'] and isinstance(c['A'][0][0], (list, tuple)) else c['A']
+        if 'dt' in c and c['dt'] is not None:
+            c['dt'] = (c['dt'][0] / f, c['dt'][1] / f)
+        c['mag'] = k
+
+
 # ---------------------------------------------------------------- recording
 class Recorder:
     """patches numpy.linalg.norm / numpy.exp (calls issued from pytenet/krylov.py only) and the names
@@ -290,10 +305,17 @@ def thr_of(n):
     return 100 * n * np.finfo(float).eps
 
 
-def ambiguous(norms, n):
-    """a loop norm close to (but not below) the breakdown threshold: floating point noise decides"""
+def case_scale(case):
+    """largest modulus of an entry of the operator (1 for the zero operator)"""
+    a = np.abs(j2c(case['A'])).max() if case['A'] else 0.0
+    return float(a) if a > 0 else 1.0
+
+
+def ambiguous(norms, n, scale=1.0):
+    """a loop norm close to (but not below) the breakdown threshold: floating point noise decides. The test of the code is
+    absolute (100 n eps); rounding noise and genuine residuals both scale with the operator, hence the window does too"""
     t = thr_of(n)
-    return any(t <= b < THR_AMBIG for b in norms[1:])
+    return any(t <= b < THR_AMBIG * scale for b in norms[1:])
 
 
 # ---------------------------------------------------------------- numerical relations (stage C)
@@ -322,7 +344,7 @@ def rel_lanczos(A, v, m, r, d, tol=1e-8):
     if k < min(m, d):
         msgs.append('iteration stopped at %d although the Krylov space has dimension %d' % (k, d))
     L = min(k, d)
-    sc = 1 + np.abs(A).max()
+    sc = np.abs(A).max() if np.abs(A).max() > 0 else 1.0
     VL = V[:, :L]
     if not np.all(np.isfinite(VL)) or not np.all(np.isfinite(alpha)) or not np.all(np.isfinite(beta)):
         msgs.append('non-finite output')
@@ -359,7 +381,7 @@ def rel_arnoldi(A, v, m, r, d, tol=1e-8):
     if k < min(m, d):
         msgs.append('iteration stopped at %d although the Krylov space has dimension %d' % (k, d))
     L = min(k, d)
-    sc = 1 + np.abs(A).max()
+    sc = np.abs(A).max() if np.abs(A).max() > 0 else 1.0
     VL, HL = V[:, :L], H[:L, :L]
     if not np.all(np.isfinite(VL)) or not np.all(np.isfinite(HL)):
         msgs.append('non-finite output')
